@@ -463,6 +463,7 @@ func (w *c18bWorld) Run(c *kernel.RunCtx) {
 		c.End()
 	}
 	c.End()
+	canaries() // baseline verdicts are taken before this process has run anything else in this world
 	eng := interpreter.NewEngine()
 	outs := make([]outcome, ntasks)
 	recs := make([]*recorder, ntasks)
@@ -519,6 +520,23 @@ func (w *c18bWorld) Run(c *kernel.RunCtx) {
 			c.Count("probe.concurrent_invalid_verdicts", 1)
 		}
 	}
+	// canaries: unrelated validations with known verdicts, on the engine the tasks shared and on a fresh one.
+	// An execution must not change what a later, unrelated validation returns (state leaked through the engine,
+	// a pool, or a package-level value).
+	for _, e := range []struct {
+		name string
+		eng  interpreter.Engine
+	}{{"the shared engine", eng}, {"a fresh engine", interpreter.NewEngine()}} {
+		for ci, cn := range canaries() {
+			c.Exec()
+			got := execProgramOn(e.eng, cn.prog, nil)
+			if !got.same(cn.want) {
+				c.Fail("cross-contamination", cn.prog.src, "after the concurrent validations, canary %d (%s) on %s returns %s; in a pristine process it returns %s", ci, cn.prog.src, e.name, got, cn.want)
+				return
+			}
+		}
+	}
+	c.Count("probe.canaries_checked", 1)
 	if c.WantSample() {
 		var ps []string
 		for i, p := range progs {
@@ -526,6 +544,38 @@ func (w *c18bWorld) Run(c *kernel.RunCtx) {
 		}
 		c.Sample(map[string]interface{}{"world": "c18b", "tasks": ntasks, "yield_every": every, "scheduler_steps": s.Steps(), "programs": ps})
 	}
+}
+
+type canary struct {
+	prog *program
+	want outcome
+}
+
+var canaryList []canary
+
+// canaries are built and executed once, at the first use in a fresh worker process.
+func canaries() []canary {
+	if canaryList != nil {
+		return canaryList
+	}
+	raw := []*program{
+		{unlock: []byte{0x51}, lock: []byte{0x6a}, flags: parseFlags("P2SH,STRICTENC"), src: "canary pre-genesis OP_RETURN"},
+		{unlock: []byte{0x51}, lock: []byte{0x6a}, flags: parseFlags("UTXO_AFTER_GENESIS"), src: "canary post-genesis OP_RETURN"},
+		{unlock: []byte{0x51}, lock: []byte{0x51, 0x87}, flags: parseFlags("P2SH,STRICTENC"), src: "canary 1 1 EQUAL"},
+		{unlock: []byte{0x52, 0x53}, lock: []byte{0x93, 0x55, 0x9c}, flags: parseFlags(""), src: "canary 2 3 ADD 5 NUMEQUAL"},
+		{unlock: []byte{0x51}, lock: []byte{0x63, 0x51, 0x67, 0x00, 0x68}, flags: parseFlags("UTXO_AFTER_GENESIS"), src: "canary IF 1 ELSE 0 ENDIF"},
+		{unlock: []byte{0x00}, lock: []byte{0x63, 0x51, 0x67, 0x00, 0x68}, flags: parseFlags("P2SH"), src: "canary false branch"},
+		{unlock: []byte{0x04, 0xff, 0xff, 0xff, 0xff}, lock: []byte{0x8b, 0x75, 0x51}, flags: parseFlags("P2SH,STRICTENC"), src: "canary 5-byte result pre-genesis"},
+		{unlock: []byte{0x05, 0xff, 0xff, 0xff, 0xff, 0x00}, lock: []byte{0x8b, 0x75, 0x51}, flags: parseFlags("UTXO_AFTER_GENESIS"), src: "canary 5-byte operand post-genesis"},
+		{unlock: []byte{0x05, 0xff, 0xff, 0xff, 0xff, 0x00}, lock: []byte{0x8b, 0x75, 0x51}, flags: parseFlags("P2SH"), src: "canary 5-byte operand pre-genesis"},
+	}
+	redeem := []byte{0x51, 0x87}
+	raw = append(raw, &program{unlock: append([]byte{0x51}, pushOf(redeem)...), lock: append(append([]byte{0xa9, 0x14}, cryptoHash160(redeem)...), 0x87), flags: parseFlags("P2SH,STRICTENC"), src: "canary P2SH spend"})
+	raw = append(raw, fixedSpend(0x41, 2, 2, 2, 1), fixedSpend(0x03, 1, 3, 1, 2), fixedSpend(0x01, 1, 1, 1, 0), fixedSpend(0xc3, 0x7fffffff, 2, 2, 0))
+	for _, p := range raw {
+		canaryList = append(canaryList, canary{p, execProgram(p, nil)})
+	}
+	return canaryList
 }
 
 func mustHex(h string) []byte {
